@@ -92,6 +92,23 @@ macro_rules! one_inner {
         let mut cr = pr.clone();
         let (got, evs) = trapemu::trapped(|| unsafe { cr.read() });
         judge_read($rep, "PortReadOnly(clone)", $w, port, got as u64, &evs);
+        // ... also when the clone is made into an existing object of another port (Clone::clone_from)
+        let other = match val & 3 { 0 => port.wrapping_add(1), 1 => !port, 2 => port ^ 0x100, _ => 0 };
+        let mut t: Port<$t> = Port::new(other);
+        t.clone_from(&p);
+        let (_, evs) = trapemu::trapped(|| unsafe { t.write(v) });
+        judge_write($rep, "Port(clone_from)", $w, port, v as u64, &evs);
+        let mut tr: PortReadOnly<$t> = PortReadOnly::new(other);
+        tr.clone_from(&pr);
+        let (got, evs) = trapemu::trapped(|| unsafe { tr.read() });
+        judge_read($rep, "PortReadOnly(clone_from)", $w, port, got as u64, &evs);
+        let mut tw: PortWriteOnly<$t> = PortWriteOnly::new(other);
+        tw.clone_from(&pw);
+        let (_, evs) = trapemu::trapped(|| unsafe { tw.write(v) });
+        judge_write($rep, "PortWriteOnly(clone_from)", $w, port, v as u64, &evs);
+        if !(t == p && tr == pr && tw == pw) {
+            $rep.violation("clone_from|result-not-equal-to-source", J::obj(vec![("port", J::hex(port as u64)), ("target_was", J::hex(other as u64))]));
+        }
     }};
 }
 
